@@ -22,7 +22,8 @@ RULE = ("Hypothesis-generated programs for the 8 buffered classes: the main thre
         "buffer already holds a modified file and a reader's first load of another file forces the "
         "flush while a writer makes its first buffered access to that file; (ii) a thread reads "
         "through its own object while another thread's growing operation pushes the buffer over a "
-        "capacity of one or two documents and so flushes every buffered collection. "
+        "capacity of one or two documents and so flushes every buffered collection; (iii) one thread "
+        "mutates a nested child (another node class) while others mutate the same file through roots. "
         "Executed under the deterministic scheduler (all single-preemption schedules when <=1600, "
         "otherwise all distinct preemption sites; plus sampled 2-3 preemption schedules). Oracle: no "
         "operation outcome other than what some serial order of the operations gives on the plain "
@@ -97,13 +98,51 @@ def draw_flush_over_reader(draw, ci):
             "pre_ops": pre, "family": "flush_over_reader"}
 
 
+def draw_nested_child(draw, ci):
+    """Steered family: one thread mutates a NESTED child (of the other container kind, hence of
+    another node class) of one object while other threads mutate the same file through the root of
+    a second object and through the first object's root."""
+    kind = ci.kind
+    F = draw(st.sampled_from([1, 2]))
+    if kind == "dict":
+        docs = [{"a": i, "H": [1]} for i in range(F)]
+        child = {"of": 0, "path": enc(["H"])}
+        ckind = "list"
+    else:
+        docs = [[{"x": 1}, i, "s"] for i in range(F)]
+        child = {"of": 0, "path": enc([0])}
+        ckind = "dict"
+    handles = [{"file": 0}, {"file": 0}, child] + ([{"file": 1}] if F == 2 else [])
+    kinds = [kind, kind, ckind] + ([kind] if F == 2 else [])
+    cop = (lambda: c09.list_op(draw, 1, restricted=False)) if ckind == "list" else (lambda: c09.dict_op(draw))
+    rop = (lambda: c09.dict_op(draw, restricted=True)) if kind == "dict" else (lambda: c09.list_op(draw, 3, restricted=True))
+    t0 = []
+    for _ in range(draw(st.integers(1, 2))):
+        op = cop()
+        while op["m"] in ("clear", "reset") and ckind == "list" and False:
+            op = cop()
+        t0.append(dict(op, h=2))
+    threads = [t0, [dict(rop(), h=1)]]
+    roots = [0, 1] + ([3] if F == 2 else [])       # handle 2 is the nested child
+    if draw(st.booleans()):
+        threads.append([dict(rop(), h=draw(st.sampled_from([0, roots[-1]])))])
+    pre = [dict({"m": "setitem", "a": enc(["p", 1])} if kind == "dict" else {"m": "append", "a": enc(["p"])},
+                h=draw(st.sampled_from(roots))) for _ in range(draw(st.integers(0, 1)))]
+    cap = draw(st.sampled_from([None, 0, 1, 20, 30, 45])) if ci.buffered == "serialized" else draw(st.sampled_from([None, 0, 1, 2]))
+    return {"property": ID, "class": ci.name, "docs": [enc(d) for d in docs], "root_kinds": [kind] * F,
+            "handles": handles, "kinds": kinds, "threads": threads, "buffered": {"cap": cap},
+            "pre_ops": pre, "family": "nested_child", "children_after_enter": True}
+
+
 def draw_program(draw, ci):
     kind = ci.kind
-    fam = draw(st.sampled_from([0, 1, 2, 3, 4, 5]))
+    fam = draw(st.sampled_from([0, 1, 2, 3, 4, 5, 6]))
     if fam == 1:
         return draw_read_forced_flush(draw, ci)
     if fam in (2, 3):
         return draw_flush_over_reader(draw, ci)
+    if fam == 4:
+        return draw_nested_child(draw, ci)
     F = draw(st.integers(1, 3))
     docs = []
     for i in range(F):
